@@ -212,3 +212,8 @@ func crashClass(stderr string) string {
 	}
 	return "unknown"
 }
+
+// IsChild reports whether this process is a scenario child. Programs that
+// combine an in-process part with L2 scenarios must call RunScenarios first
+// thing when IsChild() (it runs the scenario and exits).
+func IsChild() bool { return os.Getenv("VERIF_CHILD_SCENARIO") != "" }
